@@ -409,3 +409,15 @@ func ReplayTarget() string {
 	}
 	return rec.Test
 }
+
+// Fuzz runs a gen/run property under Go's coverage-guided native fuzzer
+// (rapid.MakeFuzz maps the fuzzer's bytes to rapid's random stream).
+func Fuzz[C any](f *testing.F, gen func(*rapid.T) C, run func(C, *Ctx) *Failure) {
+	f.Fuzz(rapid.MakeFuzz(func(rt *rapid.T) {
+		c := gen(rt)
+		if fl := run(c, &Ctx{Log: rt.Logf}); fl != nil {
+			cj, _ := json.Marshal(c)
+			rt.Fatalf("FAIL sig=%s\n%s\ncase=%s", fl.Sig, fl.Msg, cj)
+		}
+	}))
+}
